@@ -56,7 +56,12 @@ pub fn run_dp(tier: &str, seed: u64, out: &mut dyn Write) {
                       ("(def (Report (x 1)) (c 2)) (when true (:= Report.x (+ (:= c 10) c)) (report))", 5),
                       ("(def (Report (x 1)) (c 2)) (when true (:= Report.x (- (+ c 0) (:= c 1))) (report))", 5),
                       ("(def (Report (x 1)) (c 2)) (when true (:= Report.x (+ (:= c 3) (:= c 4))) (report))", 5),
-                      ("(def (Report (x 1)) (c true)) (when true (:= Report.x (if c (+ 1 (+ 2 3)))) (:= c false) (report))", 5)] {
+                      ("(def (Report (x 1)) (c true)) (when true (:= Report.x (if c (+ 1 (+ 2 3)))) (:= c false) (report))", 5),
+                      // a bind used as an operand whose source is re-bound by the sibling: the operand is the value bound, not the source
+                      ("(def (Report (x 1)) (a 2) (b 7)) (when true (:= Report.x (+ (:= a b) (:= b 5))) (report))", 5),
+                      ("(def (Report (x 1) (y 4)) (a 2)) (when true (:= Report.x (- (:= a Report.y) (:= Report.y 3))) (report))", 5),
+                      ("(def (Report (x 1)) (a 2) (b 7)) (when true (:= l b) (:= Report.x (* (:= a l) (:= l 9))) (report))", 5),
+                      ("(def (Report (x 1)) (a 2)) (when true (:= Report.x (+ (:= a Ack.bytes_acked) (:= a 3))) (report))", 5)] {
         if let Some((inst, _)) = install_hex(src.as_bytes(), 77) {
             let cp = changeprog::Msg { sid: 1, program_uid: 77, num_fields: 0, fields: vec![] };
             let cpb = serialize::serialize(&cp).unwrap();
